@@ -24,6 +24,10 @@ type c10Scn struct {
 	DelayMs []int    `json:"delayms"` // per SACK extra delay before it is sent (cyclic)
 	Skip    []bool   `json:"skip"`    // per DATA packet: do not answer with a SACK (cyclic)
 	Writes  [][3]int `json:"writes"`  // (at ms, sid, size)
+	// outages: (from ms, duration ms) during which the puppet sends no SACK at all; Deaf: it
+	// does not even receive (every DATA arriving in the window is lost)
+	Mute [][2]int `json:"mute,omitempty"`
+	Deaf bool     `json:"deaf,omitempty"`
 }
 
 func genC10(rt *rapid.T) c10Scn {
@@ -47,6 +51,13 @@ func genC10(rt *rapid.T) c10Scn {
 	for i := 0; i < 7; i++ {
 		x.DelayMs = append(x.DelayMs, rapid.SampledFrom([]int{0, 0, 0, 5, 50, 250}).Draw(rt, "sdelay"))
 		x.Skip = append(x.Skip, rapid.IntRange(0, 4).Draw(rt, "skip") == 0)
+	}
+	if rapid.IntRange(0, 2).Draw(rt, "outage") == 0 {
+		nm := rapid.IntRange(1, 2).Draw(rt, "nmute")
+		for i := 0; i < nm; i++ {
+			x.Mute = append(x.Mute, [2]int{rapid.SampledFrom([]int{0, 30, 60, 120, 400, 800, 1500}).Draw(rt, "mfrom"), rapid.SampledFrom([]int{300, 1100, 1100, 2500, 4000}).Draw(rt, "mlen")})
+		}
+		x.Deaf = rapid.IntRange(0, 3).Draw(rt, "deaf") == 0
 	}
 	mtu := x.MTU
 	if mtu == 0 {
@@ -154,11 +165,24 @@ func runC10(t *testing.T, x c10Scn, verbose bool) (c vfCase) {
 			ch.ARwnd = uint32(curARwnd)
 			p.send(ch)
 		}
+		var base time.Time
+		muted := func() bool {
+			el := int(time.Since(base).Milliseconds())
+			for _, m := range x.Mute {
+				if el >= m[0] && el < m[0]+m[1] {
+					return true
+				}
+			}
+			return false
+		}
 		p.onPacket = func(pk *wPacket) {
 			got := false
 			for i := range pk.Chunks {
 				ch := &pk.Chunks[i]
 				if ch.Type != wtDATA && ch.Type != wtIDATA {
+					continue
+				}
+				if x.Deaf && muted() {
 					continue
 				}
 				if lose[ch.TSN] > 0 {
@@ -172,11 +196,18 @@ func runC10(t *testing.T, x c10Scn, verbose bool) (c vfCase) {
 				return
 			}
 			nData++
+			if muted() {
+				return
+			}
 			if x.Skip[nData%len(x.Skip)] && len(p.rcvSet) == 0 {
 				return
 			}
 			if d := x.DelayMs[nData%len(x.DelayMs)]; d > 0 && len(p.rcvSet) == 0 {
-				s.o.after(time.Duration(d)*time.Millisecond, ackNow)
+				s.o.after(time.Duration(d)*time.Millisecond, func() {
+					if !muted() {
+						ackNow()
+					}
+				})
 			} else {
 				ackNow()
 			}
@@ -271,7 +302,7 @@ func runC10(t *testing.T, x c10Scn, verbose bool) (c vfCase) {
 			prevT3, prevFR, prevCwnd = t3, pk.InFR, pk.CWND
 			cwndAtQuiesce = pk.CWND
 		}
-		base := time.Now()
+		base = time.Now()
 		for i, w := range x.Writes {
 			w := w
 			s.o.at(base.Add(time.Duration(w[0])*time.Millisecond+time.Duration(i)*time.Microsecond), func() { s.doWrite(0, uint16(w[1]), w[2], 53) })
@@ -301,6 +332,9 @@ func runC10(t *testing.T, x c10Scn, verbose bool) (c vfCase) {
 	}
 	if windowLimited {
 		c.class("window-limited")
+	}
+	if len(x.Mute) > 0 {
+		c.class("ack-outage")
 	}
 	c.Nontrivial = lossSignal && windowLimited
 	_ = fmt.Sprint
